@@ -302,7 +302,7 @@ def run(chk):
     base = corpus()
     chk.coverage["corpus_texts"] = len(base)
     texts = []   # (kind, text)
-    n_soup, n_mut, n_nest = (400, 700, 240) if quick else (18000, 36000, 8000)
+    n_soup, n_mut, n_nest = (600, 1200, 300) if quick else (18000, 36000, 8000)
     for _ in range(n_soup):
         texts.append(("soup", "".join(rng.choice(TOKENS) + rng.choice(["", " "]) for _ in range(rng.choice([1, 2, 4, 8, 16, 40])))))
     for _ in range(n_mut):
@@ -343,7 +343,7 @@ def run(chk):
     # ================================================================== (iii) determinism
     dets = []
     progs = [t for t in base if "fn main" in t or "let " in t]
-    for _ in range(100 if quick else 3000):
+    for _ in range(250 if quick else 3000):
         t = rng.choice(progs) if rng.random() < 0.6 else mutate(rng, rng.choice(base), base)
         names = sorted(set(_re.findall(r"let ([a-z_][a-z_0-9]*)", t)))[:6]
         before = [rng.choice(base) for _ in range(rng.choice([0, 1, 3]))] + [mutate(rng, rng.choice(base), base)]
